@@ -15,7 +15,7 @@ from .. import runner
 PROP = "C03"
 
 UNARY = ["exp", "tanh", "transpose", "sum_keep", "row0", "unbind_mul", "relu", "neg", "sum_all_scaled",
-         "unbind_first", "softmax", "stack_self", "pow2"]
+         "unbind_first", "softmax", "stack_self", "pow2", "lin_bias"]
 BINARY = ["add", "mul", "matmul", "sub", "linear", "mse", "cat_sum", "div_safe"]
 UNARY_SMALL = ["exp", "transpose", "sum_keep", "unbind_mul"]
 BINARY_SMALL = ["add", "mul", "matmul"]
@@ -52,6 +52,10 @@ def apply_op(op, xs):
         return synapgrad.stack([a, a], 0).sum(0)
     if op == "pow2":
         return a ** 2
+    if op == "lin_bias":              # a three-operand op whose only operand on the differentiable path is the bias
+        cx = synapgrad.Tensor(np.array([[0.5, -1.0], [2.0, 0.25]], dtype=np.float32))
+        cw = synapgrad.Tensor(np.array([[1.0, 0.5], [-0.5, 2.0]], dtype=np.float32))
+        return NF.linear(cx, cw, a[0] if a.ndim >= 2 else a)
     b = xs[1]
     if op == "add":
         return a + b
